@@ -85,12 +85,13 @@ type slotDiff struct {
 }
 
 type leafDiff struct {
-	Addr  common.Address `json:"-"`
-	Name  string         `json:"account"`
-	Kind  string         `json:"kind"`
-	Orig  *leaf          `json:"original"`
-	Twin  *leaf          `json:"twin"`
-	Slots []slotDiff     `json:"slots,omitempty"`
+	Addr   common.Address `json:"-"`
+	Name   string         `json:"account"`
+	Kind   string         `json:"kind"`
+	Fields string         `json:"differing_fields,omitempty"`
+	Orig   *leaf          `json:"original"`
+	Twin   *leaf          `json:"twin"`
+	Slots  []slotDiff     `json:"slots,omitempty"`
 }
 
 func accName(a common.Address) string {
@@ -180,7 +181,8 @@ func diffStates(o, t map[common.Address]*leaf) []leafDiff {
 			if len(parts) == 0 {
 				continue
 			}
-			d.Kind = strings.Join(parts, "+") + "-differs"
+			d.Fields = strings.Join(parts, "+")
+			d.Kind = "leaf-differs"
 		}
 		out = append(out, d)
 	}
@@ -194,9 +196,10 @@ type twinResult struct {
 	irO, irT, crO, crT common.Hash
 	diffs              []leafDiff
 	dumpErr            string
+	twinPanic          string
 }
 
-func (t *twinResult) mismatch() bool { return t.irO != t.irT || t.crO != t.crT }
+func (t *twinResult) mismatch() bool { return t.twinPanic != "" || t.irO != t.irT || t.crO != t.crT }
 
 func finish(rn *runner, fm finalMode) (ir, cr common.Hash) {
 	if fm.IR {
@@ -209,14 +212,60 @@ func finish(rn *runner, fm finalMode) (ir, cr common.Hash) {
 	return
 }
 
-func twinCheck(d account.AccountDatabase, h []Op, rev []bool, fm finalMode) *twinResult {
+// regionBounds returns the indices of Snapshot(label) and of the Revert(label) that
+// reverts to it.
+func regionBounds(h []Op, label int) (s, e int, ok bool) {
+	s, e = -1, -1
+	for i, o := range h {
+		if o.K == "Snapshot" && o.ID == label {
+			s = i
+		}
+		if o.K == "Revert" && o.ID == label && s >= 0 {
+			e = i
+			break
+		}
+	}
+	return s, e, s >= 0 && e > s
+}
+
+// twinOf is the history "had the reverted operations never been executed":
+// label != 0: without the region reverted by Revert(label) (the property applied to
+// that one revert; every other operation, reverted or not, is in both executions);
+// label == 0: without every reverted region.
+func twinOf(h []Op, label int) ([]Op, bool) {
+	rev, ok := marks(h)
+	if !ok {
+		return nil, false
+	}
+	if label == 0 {
+		return survivors(h, rev), true
+	}
+	s, e, ok := regionBounds(h, label)
+	if !ok || !rev[s] {
+		return nil, false
+	}
+	t := append([]Op(nil), h[:s]...)
+	return append(t, h[e+1:]...), true
+}
+
+func twinCheck(d account.AccountDatabase, h, th []Op, fm finalMode) *twinResult {
 	o := newRunner(d)
 	o.run(h)
-	t := newRunner(d)
-	t.run(survivors(h, rev))
 	res := &twinResult{}
 	res.irO, res.crO = finish(o, fm)
-	res.irT, res.crT = finish(t, fm)
+	t := newRunner(d)
+	func() { // the twin may run into one of the unrelated panics only because the states already diverged
+		defer func() {
+			if e := recover(); e != nil {
+				res.twinPanic = fmt.Sprint(e)
+			}
+		}()
+		t.run(th)
+		res.irT, res.crT = finish(t, fm)
+	}()
+	if res.twinPanic != "" {
+		return res
+	}
 	if res.crO != res.crT {
 		so, e1 := dumpState(d, res.crO)
 		st, e2 := dumpState(d, res.crT)
@@ -371,14 +420,20 @@ func minimize(h []Op, pred func([]Op) bool, budget int) []Op {
 		}
 		for i := range h {
 			f := family[h[i].K]
-			if rev[i] || h[i].K == "CreateAccount" || !(f == "nonce-write" || f == "code-write" || f == "storage-write" || f == "balance-write" || f == "touch") {
+			if h[i].K == "CreateAccount" || h[i].K == "ReadAll" || !(f == "nonce-write" || f == "code-write" || f == "storage-write" || f == "balance-write" || f == "touch" || f == "balance-read") {
 				continue
 			}
-			c := append([]Op(nil), h...)
-			c[i] = Op{K: "CreateAccount", A: h[i].A}
-			if try(c) {
-				h = c
-				changed = true
+			if rev[i] && !(f == "nonce-write" || f == "code-write") {
+				continue // inside a reverted region only the plain field writes are candidates
+			}
+			for _, a := range []int{h[i].A, idxHolder} {
+				c := append([]Op(nil), h...)
+				c[i] = Op{K: "CreateAccount", A: a}
+				if try(c) {
+					h = c
+					changed = true
+					break
+				}
 			}
 		}
 	}
@@ -397,20 +452,26 @@ func lookupLeaf(d account.AccountDatabase, root common.Hash, a common.Address) *
 	return m[a]
 }
 
-func classify(d account.AccountDatabase, h []Op, x common.Address, global bool) string {
+func classify(d account.AccountDatabase, h []Op, x common.Address, global bool, accessorClass bool, label int) (sig string, detail string) {
 	rev, ok := marks(h)
 	if !ok {
-		return "malformed"
+		return "malformed", ""
 	}
-	first := -1
-	for i := range h {
-		if rev[i] {
-			first = i
-			break
+	first, last := -1, len(h)
+	if label != 0 {
+		if s, e, ok := regionBounds(h, label); ok {
+			first, last = s, e
+		}
+	} else {
+		for i := range h {
+			if rev[i] {
+				first = i
+				break
+			}
 		}
 	}
 	if first < 0 {
-		return "no-reverted-operation"
+		return "no-reverted-operation", ""
 	}
 	P := newRunner(d)
 	P.run(h[:first])
@@ -426,29 +487,25 @@ func classify(d account.AccountDatabase, h []Op, x common.Address, global bool) 
 		if P.reopened {
 			lf = lookupLeaf(d, P.lastReopen, x)
 		}
+		// "empty-looking" is what the real Empty() answers at the point just before the
+		// first reverted operation (it depends on the storage cache in this code base)
+		exists, empty := P.adb.Exist(x), P.adb.Empty(x)
 		switch {
-		case lf != nil && lf.Nonce == 0 && lf.NoCode && lf.NoStorage:
-			subject = "loaded-empty-account"
-		case lf != nil && lf.Nonce == 0 && lf.NoCode:
-			subject = "loaded-storage-only-account"
-		case lf != nil && !lf.NoCode:
-			subject = "loaded-contract-account"
-		case lf != nil:
-			subject = "loaded-account"
-		case P.adb.Exist(x):
-			if P.adb.Empty(x) {
-				subject = "created-empty-account"
-			} else {
-				subject = "created-account"
-			}
-		default:
+		case !exists && lf != nil:
+			subject = "deleted-account"
+		case !exists:
 			subject = "absent-account"
+		case lf != nil && empty:
+			subject = "loaded-empty-looking-account"
+		case lf != nil:
+			subject = "loaded-nonempty-account"
+		case empty:
+			subject = "created-empty-account"
+		default:
+			subject = "created-nonempty-account"
 		}
 		if lf == nil {
 			lastReopen = -1
-		}
-		if x == uAddr[idxHolder] {
-			subject = "balance-holder-" + subject
 		}
 	}
 	pre, rv, post := map[string]bool{}, map[string]bool{}, map[string]bool{}
@@ -458,25 +515,47 @@ func classify(d account.AccountDatabase, h []Op, x common.Address, global bool) 
 			continue
 		}
 		switch {
-		case rev[i]:
+		case rev[i] && i >= first && i <= last:
 			rv[f] = true
 		case i < first:
-			if i > lastReopen && !(f == "create" && strings.Contains(subject, "created")) {
+			if i > lastReopen && isRead(o.K) {
 				pre[f] = true
 			}
 		default:
 			post[f] = true
 		}
 	}
-	s := subject
-	if len(pre) > 0 {
-		s += "-after-" + famList(pre)
+	// The signature names the class of the leak: what kind of account, which kinds of
+	// operations were reverted, and whether the difference needs a later surviving
+	// write (or read) to show. Families of surviving operations before the region
+	// only go into the explanation (they are already reflected in the account kind).
+	s := ""
+	if !accessorClass {
+		s = subject + "-"
 	}
-	s += "-reverted-" + famList(rv)
+	if len(pre) > 0 { // surviving reads before the region that the leak needs (reads cache / overwrite the cache here)
+		s += "after-" + groupList(pre) + "-"
+	}
+	s += "reverted-" + groupList(rv)
 	if len(post) > 0 {
-		s += "-then-" + famList(post)
+		w, fin := false, post["finalise"] || post["commit"]
+		for f := range post {
+			if !(f == "read" || f == "balance-read" || f == "committed-read" || f == "prepare" || f == "finalise" || f == "commit" || f == "reopen") {
+				w = true
+			}
+		}
+		switch {
+		case w && fin:
+			s += "-then-finalise+write" // the same AccountDB is used on after Finalise/Commit
+		case w:
+			s += "-then-write"
+		case fin:
+			s += "-then-finalise"
+		default:
+			s += "-then-read"
+		}
 	}
-	return s
+	return s, subject
 }
 
 func describe(h []Op) []string {
